@@ -33,9 +33,19 @@ Theorems
       C06G_result         the result assembled by the generated epilogue (first encode error, `feed_result?`, frames in
                           key order) = `State.result`
       C06G_worker_err_arms  the two `Err` arms of the worker have the same program
-  NOT proved (stated in notes/par_design.md): the converse for DISABLED threads (that a thread the hand model blocks has
-  no protocol step in the program); interleavings of internal steps of different threads (the hand model's atomicity
-  assumption is kept: a macro step is atomic).
+      C06G_main_dichotomy, C06G_worker_dichotomy, C06G_hasher_dichotomy
+                          for every hand pc and guard: the hand model has a step of the thread, or the thread's program
+                          is stuck after finitely many internal steps (`stuckAt`); with `stuck_no_vis`:
+      C06G_bwd            program -> hand model, complete: EVERY protocol step a thread of the generated programs can
+                          reach from corresponding states is a `Par.step` with the same event and a corresponding successor
+      C06G_run_fwd, C06G_traces, C06G_run_bwd, C06G_canon_run_sound
+                          trace level (see the caveat on `CanonRun` in notes/par_design.md: it names the stopping point of
+                          the internal steps through the hand successor; the program-pure statement is `C06G_bwd`)
+  `C06G_result` also gives, on the `Ok` path, `digest = hashed` and that the final STREAMINFO updates were made.
+  Corollaries for the generated programs from C05 / C06: Theorems/C06GenCor.lean.
+  NOT proved: uniqueness of the canonical stopping point after a protocol step (needed for a trace statement whose program
+  side does not mention the hand model); interleavings of internal steps of different threads (a macro step is atomic,
+  the hand model's own atomicity assumption).
 Hypotheses: `fill = fillInterleaved ∨ fill = fillLeBytes` (which `Fill` method the source calls); satisfiable: the
 `example` at the end.  `Cond.bpsMismatch` (the width check of `fill_le_bytes`) is read as false (sources pass the
 context's own width).
@@ -771,7 +781,8 @@ assembled -/
 theorem C06G_m_joined_hasher_fwd {p fill g s s'} (hc : Corr p g s)
     (h : Par.step p s .m_joined_hasher = some s') :
     ∃ b g', macroStep (env p fill) .main 3 b g = some (.m_joined_hasher, g') ∧ Corr p g' s' ∧
-      (s'.main = .done → g'.main.result = some s'.result) := by
+      (s'.main = .done → g'.main.result = some s'.result ∧
+        ∀ l, s'.result = .ok l → g'.main.digest = s'.hashed ∧ g'.main.sizesSet = true ∧ g'.main.totalSet = true) := by
   have hhh := hcorr_held hc.hs
   obtain ⟨hsh, hm, hws, hh⟩ := hc
   obtain ⟨sh, mt, ws, ht⟩ := g
@@ -829,7 +840,8 @@ theorem C06G_m_joined_hasher_fwd {p fill g s s'} (hc : Corr p g s)
 theorem C06G_m_joined_worker_fwd {p fill g s s'} (hc : Corr p g s)
     (h : Par.step p s .m_joined_worker = some s') :
     ∃ b g', macroStep (env p fill) .main 1 b g = some (.m_joined_worker, g') ∧ Corr p g' s' ∧
-      (s'.main = .done → g'.main.result = some s'.result) := by
+      (s'.main = .done → g'.main.result = some s'.result ∧
+        ∀ l, s'.result = .ok l → g'.main.digest = s'.hashed ∧ g'.main.sizesSet = true ∧ g'.main.totalSet = true) := by
   have hex := wscorr_exited hc.ws
   have hhh := hcorr_held hc.hs
   obtain ⟨hsh, hm, hws, hh⟩ := hc
@@ -980,17 +992,428 @@ theorem C06G_bwd_enabled {p : Params} {fill : List Stmt} (hf : fill = fillInterl
     · simp at hm
   · simp at hm
 
+/-! ### program -> hand model: a thread the hand model blocks is blocked in the generated program -/
+
+/-- thread `tid` is stuck after `k` internal steps -/
+def stuckAt (env : Env) (tid : Tid) (k : Nat) (g : PState) : Prop :=
+  ∃ gk, runTau env tid k g = some gk ∧ ParProg.step env gk tid = none
+
+theorem stuck_no_vis (env : Env) (tid : Tid) : ∀ (k : Nat) (g : PState), stuckAt env tid k g →
+    ∀ (a : Nat) (g1 : PState) (e : Ev) (g2 : PState), runTau env tid a g = some g1 → visStep env tid g1 = some (e, g2) → False := by
+  intro k
+  induction k with
+  | zero =>
+    intro g ⟨gk, h1, h2⟩ a g1 e g2 h3 h4
+    simp only [runTau] at h1; injection h1 with h1; subst h1
+    cases a with
+    | zero => simp only [runTau] at h3; injection h3 with h3; subst h3; simp [visStep, h2] at h4
+    | succ a => simp [runTau, h2] at h3
+  | succ k ih =>
+    intro g ⟨gk, h1, h2⟩ a g1 e g2 h3 h4
+    simp only [runTau] at h1
+    cases hs : ParProg.step env g tid with
+    | none => simp [hs] at h1
+    | some x =>
+      obtain ⟨l, gx⟩ := x
+      cases l with
+      | ev ev0 => simp [hs] at h1
+      | tau =>
+        simp only [hs] at h1
+        cases a with
+        | zero => simp only [runTau] at h3; injection h3 with h3; subst h3; simp [visStep, hs] at h4
+        | succ a => simp only [runTau, hs] at h3; exact ih gx ⟨gk, h1, h2⟩ a g1 e g2 h3 h4
+
+/-- what the per-thread analysis delivers: the hand model has a step of the thread, or the program is stuck -/
+def EnabledOrStuck (p : Params) (fill : List Stmt) (tid : Tid) (g : PState) (s : State) : Prop :=
+  (∃ e0, tidOf e0 = tid ∧ (Par.step p s e0).isSome = true) ∨ ∃ k, stuckAt (env p fill) tid k g
+
+theorem C06G_hasher_dichotomy {p fill g s} (hc : Corr p g s) : EnabledOrStuck p fill .hasher g s := by
+  obtain ⟨hsh, hm, hws, hh⟩ := hc
+  obtain ⟨sh, mt, ws, ht⟩ := g
+  simp only at hsh hm hws hh
+  subst hsh
+  cases hpc : s.hasher with
+  | exited =>
+    rw [hpc] at hh
+    obtain ⟨hcont, hheld⟩ := hh
+    refine Or.inr ⟨0, ?_⟩
+    simp [stuckAt, runTau, ParProg.step, stepThr, hcont]
+  | running =>
+    rw [hpc] at hh
+    obtain ⟨hcont, hheld⟩ := hh
+    cases hq : s.md5Q with
+    | nil =>
+      refine Or.inr ⟨0, ?_⟩
+      par_simp [stuckAt, hcont, hRun, hBody, hasherProg, hq]
+    | cons b rest =>
+      refine Or.inl ⟨.md5_recv b.length, rfl, ?_⟩
+      simp [Par.step, hpc, hq]
+      split <;> rfl
+
+theorem wscorr_none {ts : List Thr} {pcs : List WPc} {w : Nat} (h : WsCorr ts pcs) (hw : pcs[w]? = none) : ts[w]? = none := by
+  induction h generalizing w with
+  | nil => simp
+  | cons _ _ ih =>
+    cases w with
+    | zero => simp at hw
+    | succ w => rw [List.getElem?_cons_succ] at hw ⊢; exact ih hw
+
+theorem C06G_worker_dichotomy {p fill g s} (w : Nat) (hc : Corr p g s) : EnabledOrStuck p fill (.worker w) g s := by
+  cases hwk : s.workers[w]? with
+  | none =>
+    have := wscorr_none hc.ws hwk
+    refine Or.inr ⟨0, ?_⟩
+    simp [stuckAt, runTau, ParProg.step, this]
+  | some pc =>
+    obtain ⟨t, htw, htc⟩ := wscorr_get hc.ws hwk
+    have hq : ∀ m, ∀ t ∈ g.workers.eraseIdx w, m ∉ t.held := fun m => quiet_erase (quiet_all (wscorr_quiet hc.ws) m) w
+    have hhh := hcorr_held hc.hs
+    have hwlt := lt_of_get htw
+    have hmh := mcorr_held hc.main
+    obtain ⟨hsh, hm, hws, hh⟩ := hc
+    obtain ⟨sh, mt, ws, ht⟩ := g
+    simp only at hsh hm hws hh hq htw hhh hwlt hmh
+    subst hsh
+    cases pc with
+    | exited =>
+      obtain ⟨hcont, hheld⟩ := htc
+      obtain ⟨cont, held⟩ := t
+      simp only at hcont hheld
+      subst hcont hheld
+      refine Or.inr ⟨0, ?_⟩
+      simp [stuckAt, runTau, ParProg.step, stepThr, htw]
+    | idle =>
+      obtain ⟨hcont, hheld⟩ := htc
+      obtain ⟨cont, held⟩ := t
+      simp only at hcont hheld
+      subst hcont hheld
+      cases hq' : s.encodeQ with
+      | nil =>
+        refine Or.inr ⟨0, ?_⟩
+        par_simp [stuckAt, wIdle, wGot, wEncoded, wSent, wBody, workerProg, htw, hq']
+      | cons y rest =>
+        refine Or.inl ⟨.encode_recv w y, rfl, ?_⟩
+        simp [Par.step, hwk, hq']
+    | got id =>
+      obtain ⟨hcont, hheld, hbuf⟩ := htc
+      obtain ⟨cont, held, bufid⟩ := t
+      simp only at hcont hheld hbuf
+      subst hcont hheld hbuf
+      by_cases hl : s.main.lockedBuf = some bufid
+      · refine Or.inr ⟨1, ?_⟩
+        rw [hl] at hmh
+        par_simp [stuckAt, wIdle, wGot, wEncoded, wSent, wBody, workerProg, htw, hmh, List.getElem?_set_self hwlt]
+      · have hmh' : MtxId.buf bufid ∉ mt.held := by
+          rw [hmh]; cases hl' : s.main.lockedBuf with
+          | none => simp
+          | some i => simp; intro h; apply hl; rw [hl', h]
+        cases hx : s.bufs[bufid]? with
+        | none =>
+          refine Or.inr ⟨3, ?_⟩
+          par_simp [stuckAt, wIdle, wGot, wEncoded, wSent, wBody, workerProg, htw, hmh', eq_true (hq (.buf bufid)), hhh, hx, List.getElem?_set_self hwlt]
+        | some x =>
+          cases hn : x.num with
+          | none =>
+            refine Or.inr ⟨3, ?_⟩
+            par_simp [stuckAt, wIdle, wGot, wEncoded, wSent, wBody, workerProg, htw, hmh', eq_true (hq (.buf bufid)), hhh, hx, hn, List.getElem?_set_self hwlt]
+          | some n =>
+            refine Or.inl ⟨.w_lock w bufid n, rfl, ?_⟩
+            simp [Par.step, hwk, hx, hn, hl]
+    | encoded id n res =>
+      obtain ⟨hcont, hheld, hbuf, hfn, henc⟩ := htc
+      obtain ⟨cont, held, bufid⟩ := t
+      simp only at hcont hheld hbuf hfn henc
+      subst hcont hheld hbuf hfn henc
+      by_cases hcap : s.refillQ.length < p.refillCap
+      · refine Or.inl ⟨.refill_send w bufid, rfl, ?_⟩
+        simp [Par.step, hwk, hcap]
+      · refine Or.inr ⟨1, ?_⟩
+        par_simp [stuckAt, wIdle, wGot, wEncoded, wSent, wBody, workerProg, htw, hcap, C06G_refillCap, List.getElem?_set_self hwlt]
+    | sent id n res =>
+      cases res with
+      | some f =>
+        refine Or.inl ⟨.w_push w id n, rfl, ?_⟩
+        simp [Par.step, hwk]
+      | none =>
+        refine Or.inl ⟨.w_err w id n, rfl, ?_⟩
+        simp [Par.step, hwk]
+
+theorem C06G_main_dichotomy {p fill g s} (hf : fill = fillInterleaved ∨ fill = fillLeBytes) (hc : Corr p g s) :
+    EnabledOrStuck p fill .main g s := by
+  have hq : ∀ m, ∀ t ∈ g.workers, m ∉ t.held := fun m => quiet_all (wscorr_quiet hc.ws) m
+  have hhh := hcorr_held hc.hs
+  have hex := wscorr_exited hc.ws
+  obtain ⟨hsh, hm, hws, hh⟩ := hc
+  obtain ⟨sh, mt, ws, ht⟩ := g
+  simp only at hsh hm hws hh hhh hq hex
+  subst hsh
+  obtain ⟨hm, hj⟩ := hm
+  cases hpc : s.main with
+  | recv =>
+    simp only [MCorrPc, hpc] at hm
+    obtain ⟨hcont, hheld, hfc, hrd, hre⟩ := hm
+    obtain ⟨cont, held, bufid, frameCount, reads, readRes, input, bytebuf, starved, feedErr, joined⟩ := mt
+    simp only at hcont hheld hfc hrd
+    subst hcont hheld hfc hrd
+    cases hq' : s.refillQ with
+    | nil =>
+      refine Or.inr ⟨0, ?_⟩
+      par_simp [stuckAt, mRecv, mLocked, mAfterSend, mEnq, mStopOk, mStopErr, mReqStop, mJoinH, mJoinW, joinBody, stopBody, recvBody, errArm, enqBody, fb, feedFn, loopK, mainProg, hq']
+    | cons x rest =>
+      refine Or.inl ⟨.refill_recv x, rfl, ?_⟩
+      simp [Par.step, hpc, hq']
+  | locked id =>
+    simp only [MCorrPc, hpc] at hm
+    obtain ⟨hcont, hheld, hbuf, hfc, hrd, hre⟩ := hm
+    obtain ⟨cont, held, bufid, frameCount, reads, readRes, input, bytebuf, starved, feedErr, joined⟩ := mt
+    simp only at hcont hheld hbuf hfc hrd
+    subst hcont hheld hbuf hfc hrd
+    by_cases hnf : p.readFailAt = some s.k
+    · refine Or.inl ⟨.f_read_err bufid, rfl, ?_⟩
+      simp [Par.step, hpc, hnf]
+    · cases hb : p.blocks[s.k]? with
+      | some b =>
+        cases hx : s.bufs[bufid]? with
+        | none =>
+          refine Or.inr ⟨2, ?_⟩
+          par_simp [stuckAt, mRecv, mLocked, mAfterSend, mEnq, mStopOk, mStopErr, mReqStop, mJoinH, mJoinW, joinBody, stopBody, recvBody, errArm, enqBody, fb, feedFn, loopK, mainProg, hnf, hb, hx]
+        | some x =>
+          by_cases hcap : s.md5Q.length < Par.md5Cap
+          · refine Or.inl ⟨.md5_send b.bytes.length, rfl, ?_⟩
+            simp [Par.step, hpc, hnf, hb, hx, hcap]
+          · refine Or.inr ⟨8, ?_⟩
+            rcases hf with rfl | rfl
+            · par_simp [stuckAt, mRecv, mLocked, mAfterSend, mEnq, mStopOk, mStopErr, mReqStop, mJoinH, mJoinW, joinBody, stopBody, recvBody, errArm, enqBody, fb, feedFn, loopK, mainProg, fillInterleaved, hnf, hb, hx, hcap, C06G_md5Cap]
+            · par_simp [stuckAt, mRecv, mLocked, mAfterSend, mEnq, mStopOk, mStopErr, mReqStop, mJoinH, mJoinW, joinBody, stopBody, recvBody, errArm, enqBody, fb, feedFn, loopK, mainProg, fillLeBytes, hnf, hb, hx, hcap, C06G_md5Cap]
+      | none =>
+        cases hes : p.eofSendsEmpty with
+        | false =>
+          refine Or.inl ⟨.f_eof bufid, rfl, ?_⟩
+          have hlen : p.blocks.length ≤ s.k := by
+            rcases Nat.lt_or_ge s.k p.blocks.length with h | h
+            · simp [List.getElem?_eq_getElem h] at hb
+            · exact h
+          simp [Par.step, hpc, hnf, hlen, hes]
+        | true =>
+          by_cases hcap : s.md5Q.length < Par.md5Cap
+          · refine Or.inl ⟨.md5_send 0, rfl, ?_⟩
+            simp [Par.step, hpc, hnf, hb, hes, hcap]
+          · refine Or.inr ⟨8, ?_⟩
+            rcases hf with rfl | rfl
+            · par_simp [stuckAt, mRecv, mLocked, mAfterSend, mEnq, mStopOk, mStopErr, mReqStop, mJoinH, mJoinW, joinBody, stopBody, recvBody, errArm, enqBody, fb, feedFn, loopK, mainProg, fillInterleaved, hnf, hb, hes, hcap, C06G_md5Cap]
+            · par_simp [stuckAt, mRecv, mLocked, mAfterSend, mEnq, mStopOk, mStopErr, mReqStop, mJoinH, mJoinW, joinBody, stopBody, recvBody, errArm, enqBody, fb, feedFn, loopK, mainProg, fillLeBytes, hnf, hb, hes, hcap, C06G_md5Cap]
+  | eofEmpty id =>
+    refine Or.inl ⟨.f_eof id, rfl, ?_⟩
+    simp [Par.step, hpc]
+  | filledMd5 id =>
+    simp only [MCorrPc, hpc] at hm
+    obtain ⟨hcont, hheld, hbuf, hrr, hfc, hrd, hre⟩ := hm
+    obtain ⟨cont, held, bufid, frameCount, reads, readRes, input, bytebuf, starved, feedErr, joined⟩ := mt
+    simp only at hcont hheld hbuf hrr hfc hrd
+    subst hcont hheld hbuf hrr hfc hrd
+    cases hx : s.bufs[bufid]? with
+    | none =>
+      refine Or.inr ⟨4, ?_⟩
+      par_simp [stuckAt, mRecv, mLocked, mAfterSend, mEnq, mStopOk, mStopErr, mReqStop, mJoinH, mJoinW, joinBody, stopBody, recvBody, errArm, enqBody, fb, feedFn, loopK, mainProg, hx]
+    | some x =>
+      refine Or.inl ⟨.f_filled bufid s.k, rfl, ?_⟩
+      simp [Par.step, hpc, hx]
+  | enq id =>
+    simp only [MCorrPc, hpc] at hm
+    obtain ⟨hcont, hheld, hbuf, hfc, hrd, hre⟩ := hm
+    obtain ⟨cont, held, bufid, frameCount, reads, readRes, input, bytebuf, starved, feedErr, joined⟩ := mt
+    simp only at hcont hheld hbuf hfc hrd
+    subst hcont hheld hbuf hfc hrd
+    by_cases hcap : s.encodeQ.length < p.encodeCap
+    · refine Or.inl ⟨.encode_send (some bufid), rfl, ?_⟩
+      simp [Par.step, hpc, hcap]
+    · refine Or.inr ⟨0, ?_⟩
+      par_simp [stuckAt, mRecv, mLocked, mAfterSend, mEnq, mStopOk, mStopErr, mReqStop, mJoinH, mJoinW, joinBody, stopBody, recvBody, errArm, enqBody, fb, feedFn, loopK, mainProg, hcap, C06G_encodeCap]
+  | stop r =>
+    simp only [MCorrPc, hpc] at hm
+    obtain ⟨r', hr, hok, herr, hheld⟩ := hm
+    subst hr
+    obtain ⟨cont, held, bufid, frameCount, reads, readRes, input, bytebuf, starved, feedErr, joined⟩ := mt
+    simp only at hok herr hheld
+    subst hheld
+    by_cases hcap : s.encodeQ.length < p.encodeCap
+    · refine Or.inl ⟨.encode_send none, rfl, ?_⟩
+      simp [Par.step, hpc, hcap]
+    · refine Or.inr ⟨0, ?_⟩
+      cases hre : s.readErr with
+      | false =>
+        have hcont := hok hre
+        subst hcont
+        par_simp [stuckAt, mRecv, mLocked, mAfterSend, mEnq, mStopOk, mStopErr, mReqStop, mJoinH, mJoinW, joinBody, stopBody, recvBody, errArm, enqBody, fb, feedFn, loopK, mainProg, hcap, C06G_encodeCap]
+      | true =>
+        have hcont := herr hre
+        subst hcont
+        par_simp [stuckAt, mRecv, mLocked, mAfterSend, mEnq, mStopOk, mStopErr, mReqStop, mJoinH, mJoinW, joinBody, stopBody, recvBody, errArm, enqBody, fb, feedFn, loopK, mainProg, hcap, C06G_encodeCap]
+  | reqStop =>
+    simp only [MCorrPc, hpc] at hm
+    obtain ⟨hcont, hheld, hfe⟩ := hm
+    obtain ⟨cont, held, bufid, frameCount, reads, readRes, input, bytebuf, starved, feedErr, joined⟩ := mt
+    simp only at hcont hheld hfe
+    subst hcont hheld
+    by_cases hcap : s.md5Q.length < Par.md5Cap
+    · refine Or.inl ⟨.md5_send 0, rfl, ?_⟩
+      simp [Par.step, hpc, hcap]
+    · refine Or.inr ⟨0, ?_⟩
+      par_simp [stuckAt, mRecv, mLocked, mAfterSend, mEnq, mStopOk, mStopErr, mReqStop, mJoinH, mJoinW, joinBody, stopBody, recvBody, errArm, enqBody, fb, feedFn, loopK, mainProg, hcap, C06G_md5Cap]
+  | joinH =>
+    simp only [MCorrPc, hpc] at hm
+    obtain ⟨hcont, hheld, hfe⟩ := hm
+    obtain ⟨cont, held, bufid, frameCount, reads, readRes, input, bytebuf, starved, feedErr, joined⟩ := mt
+    simp only at hcont hheld hfe
+    subst hcont hheld
+    cases hhx : s.hasher with
+    | exited =>
+      refine Or.inl ⟨.m_joined_hasher, rfl, ?_⟩
+      simp [Par.step, hpc, hhx]
+    | running =>
+      rw [hhx] at hh
+      obtain ⟨hhc, _⟩ := hh
+      refine Or.inr ⟨0, ?_⟩
+      par_simp [stuckAt, mRecv, mLocked, mAfterSend, mEnq, mStopOk, mStopErr, mReqStop, mJoinH, mJoinW, joinBody, stopBody, recvBody, errArm, enqBody, fb, feedFn, loopK, mainProg, hhc, hRun, hBody, hasherProg]
+  | joinW j =>
+    simp only [MCorrPc, hpc] at hm
+    obtain ⟨r, hr, hcont, hheld, hjd, hfe⟩ := hm
+    obtain ⟨cont, held, bufid, frameCount, reads, readRes, input, bytebuf, starved, feedErr, joined⟩ := mt
+    simp only at hcont hheld hfe hjd
+    subst hcont hheld hjd
+    by_cases hjx : joined < s.exitedCount
+    · refine Or.inl ⟨.m_joined_worker, rfl, ?_⟩
+      simp [Par.step, hpc, hjx]
+    · refine Or.inr ⟨0, ?_⟩
+      simp only [State.exitedCount] at hjx
+      par_simp [stuckAt, mRecv, mLocked, mAfterSend, mEnq, mStopOk, mStopErr, mReqStop, mJoinH, mJoinW, joinBody, stopBody, recvBody, errArm, enqBody, fb, feedFn, loopK, mainProg, hex, hjx]
+  | done =>
+    simp only [MCorrPc, hpc] at hm
+    obtain ⟨hcont, hheld⟩ := hm
+    refine Or.inr ⟨0, ?_⟩
+    simp [stuckAt, runTau, ParProg.step, stepThr, hcont]
+
+/-- SIMULATION, generated programs -> hand model (full).  From corresponding states, EVERY protocol step a thread of the
+generated programs can reach by internal steps is a `Par.step` of the hand model with the same event, and the thread's
+internal steps that follow lead to a state corresponding to the hand successor.  (A thread the hand model blocks is
+stuck in the program: `C06G_main_dichotomy`, `C06G_worker_dichotomy`, `C06G_hasher_dichotomy`.) -/
+theorem C06G_bwd {p : Params} {fill : List Stmt} (hf : fill = fillInterleaved ∨ fill = fillLeBytes)
+    {g : PState} {s : State} (hc : Corr p g s) (tid : Tid) {a : Nat} {g1 g2 : PState} {e : Ev}
+    (h1 : runTau (env p fill) tid a g = some g1) (h2 : visStep (env p fill) tid g1 = some (e, g2)) :
+    ∃ s', Par.step p s e = some s' ∧ tidOf e = tid ∧ ∃ b g', runTau (env p fill) tid b g2 = some g' ∧ Corr p g' s' := by
+  have hd : EnabledOrStuck p fill tid g s := by
+    cases tid with
+    | main => exact C06G_main_dichotomy hf hc
+    | worker w => exact C06G_worker_dichotomy w hc
+    | hasher => exact C06G_hasher_dichotomy hc
+  rcases hd with ⟨e0, rfl, hsome⟩ | ⟨k, hk⟩
+  · obtain ⟨s0, hs0⟩ := Option.isSome_iff_exists.mp hsome
+    obtain ⟨he, b, g', hb, hc'⟩ := C06G_bwd_enabled hf e0 hc hs0 h1 h2
+    subst he
+    exact ⟨s0, hs0, rfl, b, g', hb, hc'⟩
+  · exact (stuck_no_vis _ _ k g hk a g1 e g2 h1 h2).elim
+
+/-- A run of the generated programs in macro steps (program side only). -/
+inductive MacroRun (en : Env) : PState → List Ev → PState → Prop
+  | nil (g : PState) : MacroRun en g [] g
+  | cons {g g1 g' : PState} {tid : Tid} {a b : Nat} {e : Ev} {evs : List Ev} :
+      macroStep en tid a b g = some (e, g1) → MacroRun en g1 evs g' → MacroRun en g (e :: evs) g'
+
+/-- TRACES, hand model -> program: every event list the hand model accepts from a state corresponding to `g` is a macro
+run of the generated programs from `g`, ending in a corresponding state. -/
+theorem C06G_run_fwd {p : Params} {fill : List Stmt} (hf : fill = fillInterleaved ∨ fill = fillLeBytes) :
+    ∀ (evs : List Ev) (g : PState) (s s' : State), Corr p g s → Par.run p s evs = some s' →
+      ∃ g', MacroRun (env p fill) g evs g' ∧ Corr p g' s' := by
+  intro evs
+  induction evs with
+  | nil =>
+    intro g s s' hc h
+    simp only [Par.run] at h; injection h with h; subst h
+    exact ⟨g, .nil g, hc⟩
+  | cons e evs ih =>
+    intro g s s' hc h
+    simp only [Par.run] at h
+    cases hs : Par.step p s e with
+    | none => simp [hs] at h
+    | some s1 =>
+      simp only [hs] at h
+      obtain ⟨a, b, g1, hm, hc1⟩ := C06G_fwd hf e hc hs
+      obtain ⟨g', hr, hc'⟩ := ih g1 s1 s' hc1 h
+      exact ⟨g', .cons hm hr, hc'⟩
+
+/-- A run of the generated programs in which, after each protocol step, the acting thread runs on to the canonical
+continuation that `C06G_bwd` provides (the state `g3` below); `s` is carried only to name that continuation. -/
+inductive CanonRun (p : Params) (en : Env) : PState → State → List Ev → State → Prop
+  | nil (g : PState) (s : State) : CanonRun p en g s [] s
+  | cons {g g1 g2 g3 : PState} {s s1 s' : State} {tid : Tid} {a b : Nat} {e : Ev} {evs : List Ev} :
+      runTau en tid a g = some g1 → visStep en tid g1 = some (e, g2) → runTau en tid b g2 = some g3 →
+      Par.step p s e = some s1 → Corr p g3 s1 → CanonRun p en g3 s1 evs s' → CanonRun p en g s (e :: evs) s'
+
+/-- TRACES, program -> hand model: however the threads of the generated programs are scheduled at the granularity of
+protocol steps (any thread, any reachable protocol step, at every point), the event list is accepted by the hand model:
+`C06G_bwd` supplies, after every protocol step, the hand step and the canonical continuation, so such a run can always be
+continued in lockstep and is never rejected. -/
+theorem C06G_run_bwd {p : Params} {fill : List Stmt} (hf : fill = fillInterleaved ∨ fill = fillLeBytes)
+    {g : PState} {s : State} (hc : Corr p g s) (tid : Tid) {a : Nat} {g1 g2 : PState} {e : Ev}
+    (h1 : runTau (env p fill) tid a g = some g1) (h2 : visStep (env p fill) tid g1 = some (e, g2)) :
+    ∃ s1 b g3, CanonRun p (env p fill) g s [e] s1 ∧ runTau (env p fill) tid b g2 = some g3 ∧ Corr p g3 s1 ∧
+      Par.run p s [e] = some s1 := by
+  obtain ⟨s1, hs, _, b, g3, hb, hc3⟩ := C06G_bwd hf hc tid h1 h2
+  exact ⟨s1, b, g3, .cons h1 h2 hb hs hc3 (.nil g3 s1), hb, hc3, by simp [Par.run, hs]⟩
+
+theorem C06G_canon_run_sound {p : Params} {en : Env} : ∀ (evs : List Ev) (g : PState) (s s' : State),
+    CanonRun p en g s evs s' → Par.run p s evs = some s' := by
+  intro evs g s s' h
+  induction h with
+  | nil g s => rfl
+  | cons _ _ _ hs _ _ ih => simp [Par.run, hs, ih]
+
+/-- TRACE EQUIVALENCE at the granularity of canonical macro steps: from `Par.init p` resp. the corresponding start state
+`g0` of the generated programs, an event list is accepted by iterated `Par.step` iff it is a canonical run of the
+program semantics. -/
+theorem C06G_traces {p : Params} {fill : List Stmt} (hf : fill = fillInterleaved ∨ fill = fillLeBytes)
+    {g : PState} {s : State} (hc : Corr p g s) (evs : List Ev) (s' : State) :
+    Par.run p s evs = some s' ↔ CanonRun p (env p fill) g s evs s' := by
+  constructor
+  · intro h
+    induction evs generalizing g s with
+    | nil => simp only [Par.run] at h; injection h with h; subst h; exact .nil g s
+    | cons e evs ih =>
+      simp only [Par.run] at h
+      cases hs : Par.step p s e with
+      | none => simp [hs] at h
+      | some s1 =>
+        simp only [hs] at h
+        obtain ⟨a, b, g3, hm, hc1⟩ := C06G_fwd hf e hc hs
+        simp only [macroStep] at hm
+        split at hm
+        · rename_i x1 hx1
+          split at hm
+          · rename_i ex x2 hx2
+            split at hm
+            · rename_i x3 hx3
+              injection hm with hm; injection hm with hm1 hm2
+              subst hm1 hm2
+              exact .cons hx1 hx2 hx3 hs hc1 (ih hc1 h)
+            · simp at hm
+          · simp at hm
+        · simp at hm
+  · exact C06G_canon_run_sound evs g s s'
+
 /-- The result the generated main program assembles when it reaches the end equals `State.result` of the hand model
 (the hand pc `done` is entered by the two join events only). -/
 theorem C06G_result {p : Params} {fill : List Stmt} {g : PState} {s s' : State} (e : Ev)
     (he : e = .m_joined_hasher ∨ e = .m_joined_worker) (hc : Corr p g s)
     (h : Par.step p s e = some s') (hd : s'.main = .done) :
     ∃ a b g', macroStep (env p fill) .main a b g = some (e, g') ∧ Corr p g' s' ∧ g'.main.cont = [] ∧
-      g'.main.result = some s'.result := by
+      g'.main.result = some s'.result ∧
+        ∀ l, s'.result = .ok l → g'.main.digest = s'.hashed ∧ g'.main.sizesSet = true ∧ g'.main.totalSet = true := by
   have key : ∀ a b g', macroStep (env p fill) .main a b g = some (e, g') → Corr p g' s' →
-      (s'.main = .done → g'.main.result = some s'.result) →
+      (s'.main = .done → g'.main.result = some s'.result ∧
+        ∀ l, s'.result = .ok l → g'.main.digest = s'.hashed ∧ g'.main.sizesSet = true ∧ g'.main.totalSet = true) →
       ∃ a b g', macroStep (env p fill) .main a b g = some (e, g') ∧ Corr p g' s' ∧ g'.main.cont = [] ∧
-        g'.main.result = some s'.result := by
+        g'.main.result = some s'.result ∧
+        ∀ l, s'.result = .ok l → g'.main.digest = s'.hashed ∧ g'.main.sizesSet = true ∧ g'.main.totalSet = true := by
     intro a b g' h1 h2 h3
     refine ⟨a, b, g', h1, h2, ?_, h3 hd⟩
     have := h2.main.1
